@@ -9,11 +9,34 @@ def replay(pid, path):
     build_harness()
     p = json.load(open(path))
     d = fresh_dir("replay", pid)
+    if p.get("group") in ("parse", "parsegen") and "toks" in p:
+        # a token sequence decided by the language specification: print it again and ask the parser
+        rec = {"id": 1, "toks": p["toks"], "ok": p["spec"]["ok"], "at": p["spec"]["at"], "gmod": p["spec"].get("gmod") or []}
+        cp = os.path.join(d, "case.ndjson")
+        open(cp, "w").write(json.dumps(rec) + "\n")
+        op = os.path.join(d, "obs.ndjson")
+        r = subprocess.run([PVH, "ptoks", "--in", cp, "--out", op, "--n", "4", "--seed", str(seed())], stdout=subprocess.PIPE, stderr=subprocess.STDOUT, text=True)
+        if r.returncode != 0:
+            raise ToolError("pvh ptoks failed: " + r.stdout[-1000:])
+        o = next(tlc.read_ndjson(op))
+        print(f"property {pid}: {p.get('what')}")
+        print("---- recorded text:"); print(p.get("text"))
+        print("---- specification:", json.dumps({"accepts": p["spec"]["ok"], "rejects_at_token": p["spec"]["at"]}))
+        for pr in o["problems"][:2]:
+            print("---- observed now :", pr["kind"], json.dumps(pr["detail"])[:400]); print(pr["text"])
+        if o["problems"]:
+            print("reproduced")
+            print(f"VIOLATION property={pid} replay={path}")
+            return EXIT_VIOLATION
+        print("the parser now agrees with the specification on this sequence")
+        return EXIT_OK
     if "input" not in p:
         log(f"{pid}: this replay file carries no abstract input (what: {p.get('what')}); stored detail:")
         print(json.dumps({k: v for k, v in p.items() if k not in ("input",)}, indent=1)[:4000])
         return EXIT_OK
     case = {"id": 1, "input": p["input"], "order": p.get("order") or [], "sched": p.get("sched") or []}
+    if p.get("toks"):
+        case["toks"] = p["toks"]      # text-level family: the stored token sequence is the text
     cp = os.path.join(d, "case.ndjson")
     open(cp, "w").write(json.dumps(case) + "\n")
     flags = ["--emit-dir", os.path.join(d, "emit"), "--project", "--keep-text", "--events"]
